@@ -10,6 +10,14 @@ NOT_APPLICABLE = {
 
 # id -> (engine, level category, level text, level note, technique, design_ref)
 CHECKS = {
+    "C02": ("StepExec", "exploration",
+            "Relay simulation A -> B -> C with the hasher-seed seam as the controlled nondeterminism: A signs headers with every extension kind (unit, derived struct, Node basic, Node causal with 0-8 `previous` hashes via a CBOR-identical mirror type) and boundary-width values; the header travels as LogSyncMessage::Operation bytes to B, is decoded into fresh values (fresh hasher keys), inserted into and read back from a real in-memory SqliteStore (which re-encodes it), and forwarded to C; in the faulty mode every decode is repeated and the whole relay is re-executed on a second thread with different hasher keys. At every hop decode(bytes) == header, header.to_bytes() == bytes, hash() equals the id A assigned, verify() holds, stored bytes equal signed bytes, and both executions' wire transcripts are byte-identical.",
+            "Weakest fit of the family (close to a pure function); claimed because its failure mode is an uncontrolled nondeterminism source (HashSet iteration order) which the getrandom seam makes replayable and which shows up as a replication failure two hops away. The LogSync session loop itself is not run here (C19 does).",
+            "deterministic simulation: relay over store and wire under controlled hasher seeds", "§4 C02"),
+    "C25": ("DES", "fault_enumeration",
+            "Both real handshake roles over SimDuplex under seeded latencies, capacities and schedules; then per run a reference execution records both transcripts and sink-operation counts and each role is re-run against a scripted remote once per fault point: stream closed after k messages, message k replaced by every other variant (incl. another topic), an extra message inserted before k, a stream error item at k, a sink error from sink operation k, for every k; plus a mode with both real sides and one seeded link fault. A three-line model of the handshake predicts Ok(topic) / Err; the real side must return before the 600 s simulated watchdog with exactly that outcome — never a wrong topic, never a hang.",
+            "Transport and (in the enumeration mode) the remote are harness scripts replaying a real remote's transcript.",
+            "deterministic simulation with fault enumeration: every transcript position and sink operation of the handshake as fault point", "§4 C25"),
     "C15": ("StepExec", "fault_enumeration",
             "Node-level simulation through the public API of the real p2panda::Node on a file database (network stack spawned but idle): a seeded script of publish / prune / import / ack steps is re-executed once per crash position — after every step (node, streams and runtime dropped without shutdown) and, in a child process, abort() at every occurrence of each armed crash point inside the code (after the forge's commit, after the pipeline result, after the cursor update; hook H6). After each crash the durable state is read back, a new node on the same key and database replays from the frontier, and the replayed ids must equal {stored operations with a body above the durable cursor}; nothing the application acknowledged successfully is replayed; with explicit acks a second restart replays what is then durable.",
             "Crash model: process death with intact OS page cache (SQLite durability trusted). Uses bounded real-time waits (5 s for an expected replay, 150 ms to confirm an empty one), so it is the one check whose cost depends on machine load; sequential, one API call in flight.",
